@@ -9,7 +9,7 @@ props = [json.loads(l) for l in (V / "properties.jsonl").read_text().splitlines(
 # id -> (engine modules, technique, level text, level note, design ref)
 CLAIMED = {
     "C10": (
-        ["PageStore", "MC_PageStore", "Gen_PageStore", "Trace_PageStore"],
+        ["PageStore", "MC_PageStore", "Gen_PageStore", "Trace_PageStore", "PageStoreInd"],
         "namespace tables of the shipped language configurations as the model's constant (prefix tables derived by TLC: Gen_PageStore_M); Apalache inductive invariant for memo coherence (spec/apalache/PageStoreInd.tla, thorough tier); "
         "TLA+ state machine of the page store (rows, pending/committed, get_page memo) checked by TLC; "
         "the add/lookup histories of the repository's own test-suite (recorded per context) validated by Trace_PageStore; "
@@ -22,7 +22,7 @@ CLAIMED = {
         "DESIGN.md §5 C10",
     ),
     "C04": (
-        ["Transclusion", "Gen_Transclusion", "Trace_Transclusion"],
+        ["Transclusion", "Gen_Transclusion", "Trace_Transclusion", "Includable", "Gen_Includable"],
         "denotational TLA+ reference of MediaWiki transclusion (Eval over an AST) evaluated by TLC on every (library, page) of a bounded universe; "
         "each case replayed through the real expand(); random deeper cases recorded from the real code and validated by TLC",
         "TLC enumerates every (library, page) pair of the bounded universe (47k quick / more thorough), checks laws of the reference, and emits the required output; "
@@ -31,10 +31,10 @@ CLAIMED = {
         "DESIGN.md §5 C04",
     ),
     "C16": (
-        ["Expander", "Gen_Expander", "Session", "MC_Session", "Gen_Session", "Trace_Session", "Trace_SuiteStack"],
+        ["Expander", "Gen_Expander", "Gen_ExpanderWidth", "Gen_ExpanderNames", "Session", "MC_Session", "Gen_Session", "Trace_Session", "Trace_SuiteStack"],
         "per-context call traces recorded from the repository's own test-suite (pytest plugin wrapping the public Wtp methods, one event per call at its return) validated by the trace spec Trace_SuiteStack; "
         "TLA+ transcription of expand_recurse/expand_args/expand_parserfn/call_lua_sandbox with every expand_stack push/pop site explicit (state-threading twin); "
-        "TLC checks StackRestored on every (page, library, 16 option combinations); each case replayed on the real code incl. 300 repeated calls; push/pop event traces compared; "
+        "TLC checks StackRestored on every (page, library, 16 option combinations), on wide pages (Gen_ExpanderWidth) and on 24 forms of the called name (Gen_ExpanderNames: leading colon, namespace prefixes, case/underscore/blank variants, redirects, missing pages; page store printed with every case); each case replayed on the real code incl. 300 repeated calls; push/pop event traces compared; "
         "plus the per-page session state machine (Session.tla: start_page/start_section/start_subsection/messages/expand/parse/to_return as actions) model-checked, its behaviours replayed on one real context and recorded random sessions validated by TLC",
         "Bounded-exhaustive: TLC evaluates the twin on every case of the universe and checks that the expansion path is restored (the old early-return design is shown to violate it); "
         "the real expand() is run on every case, with Lua (offline stand-ins), failing Lua, time-outs and loops, and repeated 300x per page without start_page.",
@@ -59,7 +59,7 @@ CLAIMED = {
         "DESIGN.md §5 C14",
     ),
     "C11": (
-        ["Backup", "MC_Backup", "Gen_Backup", "Trace_Backup", "Pipeline", "Gen_Pipeline", "Trace_Pipeline"],
+        ["Backup", "MC_Backup", "Gen_Backup", "Trace_Backup", "BackupPaths", "Pipeline", "Gen_Pipeline", "Trace_Pipeline"],
         "TLA+ crash model of the database files (main, -wal, -shm, rollback journal, backup, temp; journal mode stored in every file header; start states: library database / rollback-mode database / empty file / absent) with one action per file-visible step of open/backup/overwrite (also one that spills before its commit)/commit/close and a Crash action at every step; "
         "TLC checks 'fresh => visible = expected'; the real flows are killed at every executed source line (sys.settrace + os._exit) in child processes, reopened in another process and "
         "compared with the model by observed file state; observed file-state traces validated by TLC",
@@ -69,7 +69,7 @@ CLAIMED = {
         "DESIGN.md §5 C11, notes/C11.md",
     ),
     "C20": (
-        ["Workers", "MC_Workers", "Gen_Workers", "Trace_Workers"],
+        ["Workers", "MC_Workers", "Gen_Workers", "Trace_Workers", "LockWait", "LockWaitInd", "WorkersLockInd"],
         "transaction state per connection (NoIdleTransaction) and the three-worker bootstrap race; Apalache inductive invariants for the lock core and LockWait (spec/apalache/WorkersLockInd.tla, LockWaitInd.tla, thorough tier); "
         "TLA+ model of N worker processes (start-up restore steps, connect, schema, reads, bootstrap-page write, commit, close; the creating context as a process that only closes) under SQLite locking and checkpoint rules (WAL, and rollback-journal mode for databases whose provenance - restored from a backup, header mode dropped - leaves them in it; the journal mode is state every open re-establishes); TLC explores all interleavings of 2-3 workers and every placement of the closes; "
         "TLC-generated schedules are replayed on real forked processes under harness-side schedule control (wrappers on os/sqlite3 operations), recorded (process, op, result) traces validated by a TLC trace spec; free-running stress with 2..16 workers",
@@ -78,7 +78,7 @@ CLAIMED = {
         "DESIGN.md §5 C20, notes/C20.md",
     ),
     "C17": (
-        ["Analyze", "MC_Analyze", "Gen_Analyze", "Trace_Analyze"],
+        ["Analyze", "MC_Analyze", "Gen_Analyze", "Trace_Analyze", "AnalyzeInd"],
         "Apalache inductive invariant for the worklist (marked = least closure; spec/apalache/AnalyzeInd.tla, thorough tier); "
         "TLA+ state machine of analyze_templates (classifier pass, included_map, worklist, cache clearing, the two redirect updates) over PageStore; TLC checks termination and marked = least closure + redirect neighbours; "
         "all inclusion graphs up to the bound x flag sets x redirect placements x name spellings run on the real analyze_templates; random 8-template worlds recorded and validated by TLC; a call may start from earlier marks (add_page(need_pre_expand=True), an earlier analysis, an overwrite file) and histories add / analyse / overwrite / analyse again are model-checked (Rerun) and replayed / recorded",
@@ -112,7 +112,7 @@ CLAIMED = {
     ),
     "C09": (
         ["Context", "Gen_Context", "Trace_Context", "ContextInvoke", "Gen_ContextInvoke", "Trace_ContextInvoke"],
-        "ContextInvoke models the invocations inside one page (environment stack, package.loaded instances, failing and nested invocations; reference: every top-level invocation gives what it gives alone on a fresh context), TLC-generated invocation histories run on one page of a real context in three renderings, recorded random histories validated by TLC; "
+        "ContextInvoke models the invocations inside one page (environment stack, package.loaded instances, failing and nested invocations; reference: every top-level invocation gives what it gives alone on a fresh context), TLC-generated invocation histories run on one page of a real context in three renderings, recorded random histories validated by TLC; objects handed out by the constructors of retained libraries (mw.title.*, mw.language.*, mw.html.create, mw.message.new) are state of the model (writer/reader kinds per constructor, ObjKey, later page via the cell lobjects); "
         "TLA+ model of every retained cell of the context (scope, reset point) and page kinds as readers/writers; TLC checks non-interference over all histories and emits every history with the cells the as-is model says interfere; "
         "each history run on one real context vs fresh contexts (separate processes), comparing trees, expansions and messages; random long histories attributed by a TLC trace spec",
         "Bounded-exhaustive over histories of 17-18 page kinds (<=2 quick, <=3 thorough; model: <=4) plus random histories up to 30 pages; differences are reported unless the as-is model explains them by a listed finding.",
@@ -120,9 +120,9 @@ CLAIMED = {
         "DESIGN.md §5 C09",
     ),
     "C05": (
-        ["Expander", "Gen_Expander", "Gen_ExpanderDepth", "Expr", "ParserFns"],
+        ["Expander", "Gen_Expander", "Gen_ExpanderDepth", "Expr", "ParserFns", "MC_ParserFns", "Gen_ParserFns"],
         "nesting ladders (what is nested x how deep x split over page and template bodies) generated from Gen_ExpanderDepth with the depth limit stated for every kind of nesting, run on the real expand() under a CPU bound; "
-        "(a) expander twin evaluated by TLC on cyclic libraries / deep nests (termination, work bound, cuts reported) and replayed on the real expand() under a wall-clock bound; random cyclic libraries validated by the twin from a file; "
+        "(a) expander twin evaluated by TLC on cyclic libraries / deep nests (termination, work bound, cuts reported) and replayed on the real expand() under a wall-clock bound; random cyclic libraries validated by the twin from a file; part O: the documented options of expand() (three switches, template selections, hooks returning None / a string) x histories of three calls on one started page, predictions per call by TLC (StackRestored makes them independent of predecessors); "
         "(b) TLA+ model of #expr tokenizer/ladder with explicit error outcomes and parser-function argument classes, every TLC-enumerated call run through the real expand()",
         "Bounded-exhaustive termination/in-band reporting over cyclic template libraries, nests to depth 100, #expr token sequences and every parser function x argument classes.",
         "wall-clock bound 20 s per small page; network helpers stubbed; Lua via offline stand-ins.",
@@ -141,7 +141,7 @@ CLAIMED = {
         "DESIGN.md §5 C06, notes/C06.md",
     ),
     "C07": (
-        ["LuaTimeout", "MC_LuaTimeout", "Gen_LuaTimeout", "Trace_LuaTimeout"],
+        ["LuaTimeout", "MC_LuaTimeout", "Gen_LuaTimeout", "Trace_LuaTimeout", "LuaSession", "Gen_LuaSession"],
         "TLA+ small-step machine of the count hook / deadline / protected-call stack / coroutines with liveness DeadlinePassed ~> Done under weak fairness, plus big-step Pred(body, wrapper, Dev); TLC enumerates the program grammar with predicted outcome classes; "
         "every program rendered to Lua and run through expand(timeout=...) in child processes with a hard kill; event traces of running programs validated by a TLC trace spec; follow-up invocations compared with a fresh context",
         "Model checking incl. liveness of the ideal design; bounded-exhaustive program grammar (wrapper depth 2 quick / 3 thorough) on the real sandbox; outcomes must match what the property demands unless explained by one of four listed findings.",
@@ -149,7 +149,7 @@ CLAIMED = {
         "DESIGN.md §5 C07, notes/C07.md",
     ),
     "C18": (
-        ["Expr", "MC_Expr", "Gen_Expr", "Trace_Expr", "StrFns", "FormatNum", "ParserFns"],
+        ["Expr", "MC_Expr", "Gen_Expr", "Trace_Expr", "StrFns", "MC_StrFns", "Gen_StrFns", "Trace_StrFns", "FormatNum", "MC_FormatNum", "Gen_FormatNum", "Trace_FormatNum", "ParserFns"],
         "TLA+ models of #expr (exact rational Fold over ASTs, documented-precedence renderers, transcription of the generic_binary ladder and tokenizer), of the string functions over Seq(Atom), and of formatnum grouping / reverse; "
         "TLC checks Ladder(RenderMin(a)) = Ladder(RenderFull(a)) = Fold(a) on operator pairs/shapes, string-function laws and Reverse(Format(n)) = n; every enumerated case evaluated by the real expand() in five renderings; random deeper ASTs / calls / numerals recorded and validated by TLC trace specs",
         "Bounded-exhaustive operator pairs x association shapes x operand triples, token soups, strings x offsets, numerals x every locale shape read from the working tree; V: ASTs to depth 5, wider alphabets.",
@@ -157,10 +157,10 @@ CLAIMED = {
         "DESIGN.md §5 C18, notes/C18.md",
     ),
     "C01": (
-        ["Parser", "WikiTree", "Gen_Parser", "Trace_WikiTree"],
+        ["Parser", "WikiTree", "Gen_Parser", "Trace_WikiTree", "TagToken", "ExtUrl", "Gen_ExtUrl", "Trace_SuiteStack"],
         "the trees the repository's own test-suite obtains (recorded by a pytest plugin) and every text it parses validated by Trace_WikiTree; "
         "TLA+ transcription of the token-driven push-down parser (one operator per handler, token_iter incl. the apostrophe state machine) and of the tree well-formedness rules; TLC checks dispatch totality, WellFormed and clean final state on every chunk sequence of six universes; "
-        "every sequence parsed by the real parse() in several spellings and three modes; random soups / grammar documents / mutated real pages / nesting ladders dumped structurally and validated by TLC against the same WellFormed operator",
+        "every sequence parsed by the real parse() in several spellings and three modes; ExtUrl.tla models how the url part of an external link is collected piece by piece and merged (context x label x head x tails over 14 atoms; WellFormed now also forbids adjacent strings inside argument fields); TagToken.tla enumerates tag-token spellings; random soups / grammar documents / mutated real pages / nesting ladders dumped structurally and validated by TLC against the same WellFormed operator",
         "Bounded-exhaustive chunk sequences (70 k quick / 550 k thorough) on model and code, plus TLC validation of the distinct tree shapes of ~20 k (quick) / 500 k (thorough) random soups, grammar documents and page mutations.",
         "Unicode outside the token alphabet is sampled; per-parse CPU limit 5 s (slower parses are counted, not judged); trees deeper than 50 levels validated as one-level slices.",
         "DESIGN.md §5 C01, notes/C01.md",
@@ -168,7 +168,7 @@ CLAIMED = {
     "C02": (
         ["Parser", "ParserRef", "ParserRefDoc", "Gen_ParserRef", "Trace_ParserRef"],
         "the same parser transcription restricted to line-structured documents and a declarative nesting model (section parent, containment, item parent, same list); TLC checks Relations(MachineTree(doc)) = RefRelations(doc) on every document; "
-        "every document concretised with unique marker words and filler blocks and parsed by the real parser, relations extracted and compared; long random documents validated by a TLC trace spec",
+        "every document concretised with unique marker words and filler blocks and parsed by the real parser, relations extracted and compared; universe W spells the white space around the tokens of every structure line (after the opening/closing = run, after list markers, at line ends; blank, TAB, CR strict, FF/VT/NBSP/U+3000 DRIFT) under 14 schemes; long random documents validated by a TLC trace spec",
         "Bounded-exhaustive heading sequences <=4, marker sequences <=3 lines, mixed documents <=4 lines x filler catalogue (57 k documents quick), plus 4 000 (60 000 thorough) long documents validated by TLC.",
         "filler blocks are balanced markup from a catalogue; full-tree disagreement with the machine twin is DRIFT.",
         "DESIGN.md §5 C02, notes/C02.md",
@@ -176,7 +176,7 @@ CLAIMED = {
     "C03": (
         ["ParserStruct", "Gen_ParserStruct", "Trace_ParserStruct"],
         "TLA+ twin of the table / HTML element / link / template-call fragment of the parser: the written structure (grid, element, call) is the value TLC starts from, Render produces the token sequence, MachineTree transcribes the handlers, TreeOf is the tree the property demands; "
-        "TLC checks MachineTree(Render(g, style)) = TreeOf(g); every structure concretised and parsed by the real parser; random larger pages recorded and validated by a TLC trace spec",
+        "TLC checks MachineTree(Render(g, style)) = TreeOf(g); every structure concretised and parsed by the real parser; universe SEP writes the separator sequences of the table grammar (!!, !, ||, |-, |+, |}) inside inline constructs (link label/target, call arguments, argument references, parser functions, external-link labels, HTML elements, bold/italic runs) of header and data cells; random larger pages recorded and validated by a TLC trace spec",
         "Bounded-exhaustive grids <=3x3 (quick) / <=4x4 (thorough) x two separator styles x attribute maps x content catalogue, every paired tag of the allowed-tag table read from the working tree, calls/links with written argument lists.",
         "cell contents from a catalogue; whitespace at block boundaries normalised by the TLA+ Equiv-style operator; preconditions listed in notes/C03.md (pipes inside HTML inside template arguments etc.).",
         "DESIGN.md §5 C03, notes/C03.md",
